@@ -2,6 +2,7 @@ package main
 
 import (
 	"go/token"
+	"go/types"
 	"strings"
 
 	"golang.org/x/tools/go/ssa"
@@ -96,6 +97,9 @@ func compositeFields(v ssa.Value) map[string]ssa.Value {
 
 func isLenOf(v ssa.Value, what func(ssa.Value) bool) bool {
 	c, ok := Resolve1(v).(*ssa.Call)
+	if !ok {
+		c, ok = ResolveOnce(Resolve1(v)).(*ssa.Call) // `n := len(x)` hoisted out of the closure that uses it
+	}
 	return ok && CalleeName(c.Common()) == "builtin.len" && what(c.Call.Args[0])
 }
 
@@ -108,7 +112,7 @@ func runC13(r *R) {
 		"Deadlock freedom in general and final-content linearizability are not decided."
 	r.NotDec = []string{"deadlock freedom between arbitrary inode pairs", "final content equals some sequential order (history-level)", "which object's lock is held (locks are one class)"}
 	r.Assume = []string{"sync.RWMutex semantics", "contextGroup.Go closures finish before cg.Wait returns"}
-	r.Rule("C13-R1", "filenode/memSegment state only written under an inode write lock; 'caller must have lock' functions only called with one", 20)
+	r.Rule("C13-R1", "filenode/memSegment state only written under an inode write lock; 'caller must have lock' functions only called with one", 15)
 
 	annot := map[string]int{
 		"(*" + arv + ".filenode).seek":                 lkR,
@@ -323,11 +327,111 @@ func bufLoadAfter(x ssa.Value, put []ssa.CallInstruction) bool {
 	return IsFieldLoad(u, arv+".memSegment", "buf") && Before(put[0].(ssa.Instruction), u)
 }
 
+// flushRoles finds, in the function that starts a background flush, the segments whose `flushing` field it
+// assigns and the tokens assigned — by structure (stores to memSegment.flushing), not by variable name.
+type flushRoles struct {
+	outer  *ssa.Function
+	bases  []ssa.Value // segment values (resolved) whose .flushing is assigned
+	tokens []ssa.Value // values assigned (resolved; a MakeChan)
+}
+
+func stripIface(v ssa.Value) ssa.Value {
+	for {
+		v = Strip(v)
+		switch x := v.(type) {
+		case *ssa.MakeInterface:
+			v = x.X
+			continue
+		case *ssa.ChangeInterface:
+			v = x.X
+			continue
+		}
+		return v
+	}
+}
+
+func findFlushRoles(outer *ssa.Function) *flushRoles {
+	fr := &flushRoles{outer: outer}
+	allInstrs(outer, func(in ssa.Instruction) {
+		st, ok := in.(*ssa.Store)
+		if !ok {
+			return
+		}
+		fa, ok := st.Addr.(*ssa.FieldAddr)
+		if !ok {
+			return
+		}
+		if t, f, _, ok := FieldName(fa); !ok || t != arv+".memSegment" || f != "flushing" {
+			return
+		}
+		tok := ResolveOnce(st.Val)
+		if _, isMC := tok.(*ssa.MakeChan); !isMC {
+			return
+		}
+		fr.bases = append(fr.bases, ResolveOnce(fa.X))
+		fr.tokens = append(fr.tokens, tok)
+	})
+	return fr
+}
+
+func (fr *flushRoles) isToken(v ssa.Value) bool {
+	x := ResolveOnce(v)
+	for _, t := range fr.tokens {
+		if x == t {
+			return true
+		}
+	}
+	return false
+}
+
+func (fr *flushRoles) isSeg(v ssa.Value) bool {
+	x := ResolveOnce(stripIface(v))
+	for _, b := range fr.bases {
+		if x == b {
+			return true
+		}
+	}
+	return false
+}
+
+// isCapturedBuf: v is the value `seg.buf` had when the enclosing function read it (under the lock) for a
+// segment whose flush it started — not a re-read in the goroutine.
+func (fr *flushRoles) isCapturedBuf(v ssa.Value) bool {
+	x := ResolveOnce(v)
+	u, ok := x.(*ssa.UnOp)
+	if !ok || u.Parent() != fr.outer || !IsFieldLoad(u, arv+".memSegment", "buf") {
+		return false
+	}
+	fa, ok := u.X.(*ssa.FieldAddr)
+	return ok && fr.isSeg(fa.X)
+}
+
+// capturedOfType: v is a load of a captured variable (free variable) of the given type.
+func capturedOfType(v ssa.Value, typ string) bool {
+	u, ok := Strip(v).(*ssa.UnOp)
+	if !ok || u.Op != token.MUL {
+		return false
+	}
+	fv, ok := u.X.(*ssa.FreeVar)
+	return ok && typeString(u.Type()) == typ && fv != nil
+}
+
+// capturedBoolParam: v is the enclosing function's boolean parameter, seen through the closure.
+func capturedBoolParam(v ssa.Value) bool {
+	p, ok := ResolveOnce(v).(*ssa.Parameter)
+	if !ok {
+		return false
+	}
+	b, ok := p.Type().Underlying().(*types.Basic)
+	return ok && b.Kind() == types.Bool
+}
+
 // flushSwapRules: the background-flush completion handlers and memSegment copy-on-write (shared by C13 and C08).
 func flushSwapRules(r *R, ruleSwap, ruleCOW string) {
 	lc := inodeLockClass(map[string]int{})
 	if outer := r.NeedFn(ruleSwap, "(*"+arv+".filenode).pruneMemSegments"); outer != nil {
 		n := 0
+		fr := findFlushRoles(outer)
 		for _, cl := range Closures(outer) {
 			for _, st := range segElemStores(cl) {
 				n++
@@ -338,7 +442,7 @@ func flushSwapRules(r *R, ruleSwap, ruleCOW string) {
 				if okPut {
 					gErr, _ = Guard(cl, put[0].(ssa.Instruction), st, ErrNilC(put[0]))
 				}
-				gFl, _ := Guard(cl, nil, st, EqC("seg.flushing == done", FieldVP(arv+".memSegment", "flushing", nil), CanonVP("free:done")))
+				gFl, _ := Guard(cl, nil, st, EqC("seg.flushing == done", FieldVP(arv+".memSegment", "flushing", nil), fr.isToken))
 				ia := st.Addr.(*ssa.IndexAddr)
 				idxC := Canon(ia.Index)
 				gIdx, _ := Guard(cl, nil, st, LtC("idx < len(fn.segments)", CanonVP(idxC), func(v ssa.Value) bool {
@@ -351,17 +455,17 @@ func flushSwapRules(r *R, ruleSwap, ruleCOW string) {
 					}
 					a, ok := u.X.(*ssa.IndexAddr)
 					return ok && IsFieldLoad(a.X, arv+".filenode", "segments") && Canon(a.Index) == idxC
-				}, func(v ssa.Value) bool { return strings.Contains(Canon(v), "free:seg") }))
+				}, fr.isSeg))
 				gLen, _ := Guard(cl, nil, st, EqC("len(seg.buf) == len(buf)", func(v ssa.Value) bool {
 					return isLenOf(v, func(x ssa.Value) bool { return IsFieldLoad(x, arv+".memSegment", "buf") })
-				}, func(v ssa.Value) bool { return isLenOf(v, func(x ssa.Value) bool { return Canon(x) == "free:buf" }) }))
+				}, func(v ssa.Value) bool { return isLenOf(v, fr.isCapturedBuf) }))
 				locked := ls.At(st) >= lkW
 				r.Check(locked && okPut && gErr && gFl && gIdx && gSame && gLen, ruleSwap, cl, "fn.segments[idx] = storedSegment", st.Pos(),
 					"under fn.Lock, PutB ok, flushing token / index / identity / length re-validated",
 					"segment swap without (lock="+boolS(locked)+" putErr="+boolS(gErr)+" flushing="+boolS(gFl)+" idx="+boolS(gIdx)+" identity="+boolS(gSame)+" length="+boolS(gLen)+")")
 				// R3 part: PutB gets the buffer captured under the lock
 				if okPut {
-					r.Check(Canon(CallArgs(put[0].Common())[0]) == "free:buf", ruleCOW, cl, "PutB(buf)", put[0].Pos(), "writes the buffer captured under the lock", "PutB is given a buffer re-read after the lock was released")
+					r.Check(fr.isCapturedBuf(CallArgs(put[0].Common())[0]), ruleCOW, cl, "PutB(buf)", put[0].Pos(), "writes the buffer captured under the lock", "PutB is given a buffer re-read after the lock was released")
 				}
 			}
 		}
@@ -371,6 +475,7 @@ func flushSwapRules(r *R, ruleSwap, ruleCOW string) {
 	}
 	if outer := r.NeedFn(ruleSwap, "(*"+arv+".dirnode).commitBlock"); outer != nil {
 		n := 0
+		fr := findFlushRoles(outer)
 		for _, cl := range Closures(outer) {
 			for _, st := range segElemStores(cl) {
 				n++
@@ -379,7 +484,7 @@ func flushSwapRules(r *R, ruleSwap, ruleCOW string) {
 				ia := st.Addr.(*ssa.IndexAddr)
 				idxC := Canon(ia.Index)
 				// async mode: all paths on which !sync is true
-				asyncFact := TrueC("sync (synchronous mode: caller holds the lock and waits)", CanonVP("free:sync"))
+				asyncFact := TrueC("sync (synchronous mode: caller holds the lock and waits)", capturedBoolParam)
 				gIdx := GuardOrPass(cl, nil, st, nil, asyncFact, LtC("ref.idx < len(segments)", CanonVP(idxC), func(v ssa.Value) bool {
 					return isLenOf(v, func(x ssa.Value) bool { return IsFieldLoad(x, arv+".filenode", "segments") })
 				}))
@@ -390,8 +495,16 @@ func flushSwapRules(r *R, ruleSwap, ruleCOW string) {
 					}
 					_, isTA := e.Tuple.(*ssa.TypeAssert)
 					return isTA
-				}, func(v ssa.Value) bool { return strings.Contains(Canon(v), "free:segs") }))
-				gFl := GuardOrPass(cl, nil, st, nil, asyncFact, EqC("seg.flushing == done", FieldVP(arv+".memSegment", "flushing", nil), CanonVP("free:done")))
+				}, func(v ssa.Value) bool {
+					// an element of the captured list of segments being flushed
+					u, ok := stripIface(v).(*ssa.UnOp)
+					if !ok {
+						return false
+					}
+					ia, ok := u.X.(*ssa.IndexAddr)
+					return ok && capturedOfType(ia.X, "[]*"+modPrefix+arv+".memSegment")
+				}))
+				gFl := GuardOrPass(cl, nil, st, nil, asyncFact, EqC("seg.flushing == done", FieldVP(arv+".memSegment", "flushing", nil), fr.isToken))
 				// lock: on async paths Lock() precedes
 				var locks []ssa.Instruction
 				for _, c := range CallsMatching(cl, func(nm string, c *ssa.CallCommon) bool { return lc.Classify(c) == 2 }) {
@@ -402,7 +515,7 @@ func flushSwapRules(r *R, ruleSwap, ruleCOW string) {
 				gErr := false
 				if len(put) == 1 {
 					gErr, _ = Guard(cl, put[0].(ssa.Instruction), st, ErrNilC(put[0]))
-					r.Check(Canon(CallArgs(put[0].Common())[0]) == "free:block", ruleCOW, cl, "PutB(block)", put[0].Pos(), "writes the block assembled under the lock", "PutB is given something other than the block assembled under the lock")
+					r.Check(capturedOfType(CallArgs(put[0].Common())[0], "[]byte"), ruleCOW, cl, "PutB(block)", put[0].Pos(), "writes the block assembled under the lock", "PutB is given something other than the block assembled under the lock")
 				}
 				r.Check(gIdx && gSame && gFl && gLock && gErr, ruleSwap, cl, "ref.fn.segments[ref.idx] = storedSegment", st.Pos(),
 					"PutB ok; in async mode: under ref.fn.Lock with index / identity / flushing token re-validated",
